@@ -20,20 +20,20 @@ CT = [
     dict(lo=0.5, up=4.0, I=1.2, gv=[-4.0, -1.0, 0.0, 0.25, 1.0]),
     dict(lo=-3.0, up=-1.0, I=-2.5, gv=[-1.5, -0.1, 0.0, 0.1, 6.0]),
 ]
-BTL = ("free", "lo", "up", "box")
+BTL = ("free", "lo", "up", "box", "deg")
 
 
 def bt(letter, v):
     t = CT[v]
     return {"free": (-INF, INF), "lo": (t["lo"], INF), "up": (-INF, t["up"]),
-            "box": (t["lo"], t["up"])}[letter]
+            "box": (t["lo"], t["up"]), "deg": (t["I"], t["I"])}[letter]
 
 
 def positions(letter):
     # N = strictly inside but within 3e-9 of the lower bound ("on the bound" must be an
     # exact comparison: a variable that close is still free)
     return {"free": ("I",), "lo": ("L", "N", "I"), "up": ("I", "U"),
-            "box": ("L", "N", "I", "U")}[letter]
+            "box": ("L", "N", "I", "U"), "deg": ("L",)}[letter]
 
 
 def posval(letter, pos, v):
